@@ -62,6 +62,24 @@ TRAIL = {"cisco_iosxe": [""], "cisco_iosxr": ["", " "], "cisco_nxos": ["", " "],
          "generic": ["", " ", "  ", " \t "]}     # trailing blanks the platform's own pattern admits after the prompt
 
 
+_SAFE_LINES = {}
+
+
+def generic_only_lines(platform):
+    """lines the GENERIC prompt pattern accepts but of which no prefix (a read can end anywhere in a line) is a prompt of the platform's
+    own class pattern -- they are not prompts of a platform driver that has commandeered a GenericDriver's connection"""
+    if platform not in _SAFE_LINES:
+        import scrapli.driver as D
+        import scrapli.driver.core as C
+        from harness.simtransport import DRIVERS
+        cls = getattr(C, DRIVERS[platform][0], None) or getattr(D, DRIVERS[platform][0])
+        pp = re.compile(cls(host="h").comms_prompt_pattern.encode(), re.M | re.I)
+        gp = re.compile(D.GenericDriver(host="h").comms_prompt_pattern.encode(), re.M | re.I)
+        cands = ["</rpc-reply>", "<name>ge-0/0/0</name>", "total:", "[ok]", "cost 5$", "a~", "<done>", "[edit-candidate]", "<value@x>"]
+        _SAFE_LINES[platform] = [c for c in cands if gp.search(c.encode()) and not any(pp.search(c.encode()[:k]) for k in range(1, len(c) + 1))]
+    return _SAFE_LINES[platform]
+
+
 def gen_scenario(rng, tier, eager_input=False):
     platform = rng.choice(PLATFORMS)
     m = rng.random()
@@ -107,6 +125,30 @@ def gen_scenario(rng, tier, eager_input=False):
             follow = [x for x in cmds if len(sq(x)) >= 4 and sq(x) not in rest]
             if follow:
                 sc.ops[at:at] = [("abandon", c, n), ("send_command", rng.choice(follow), rng.random() < 0.7, False)]
+    if rng.random() < 0.06 and not sc.echo_junk and not sc.prompts and not any(o[0] == "abandon" for o in sc.ops):
+        # an operation times out while the last thing the device printed is the BEGINNING of an escape sequence (the channel holds it
+        # back); the timeout handler closes the transport; the user opens the same object again: a new session, nothing of the old
+        # one may show up in it (the device prints its prompt at once, so the new session does not start with a newline)
+        long_cmds = [c for c in cmds if len(sc.outputs[c.strip()].encode()) >= 4]
+        if long_cmds:
+            c = rng.choice(long_cmds)
+            n = rng.randint(1, len(sc.outputs[c.strip()].encode()) - 1)
+            # the second prompt (the answer to get_prompt's return) is still unread when the next command is sent: that command
+            # must not occur in it (its echo is searched for, ignoring case and blanks, in everything that arrives)
+            sq = lambda x: "".join(x.lower().split())
+            follow = [x for x in cmds if len(sq(x)) >= 4 and sq(x) not in sq(sc.hostname + sc.user)]
+            if follow:
+                sc.ops = [("abandon", c, n, rng.choice([b"\x1b[", b"\x1b", b"\x1b]0;ti", b"\x1b[3"]).decode("latin1")), ("reopen",), ("get_prompt",),
+                          ("send_command", rng.choice(follow), True, False)] + [o for o in sc.ops[:2] if o[0] != "get_prompt"]
+    if rng.random() < 0.06 and platform != "generic" and not sc.prompts:
+        # the connection is made by a GenericDriver and taken over by the platform driver (commandeer): outputs may contain lines
+        # that the GENERIC prompt pattern accepts but the platform's does not -- they are not prompts of this driver
+        sc.commandeer = True
+        sc.hostname = sc.hostname[:30]      # the GenericDriver that makes the connection reads the prompt too (its pattern admits 48 bytes)
+        safe = generic_only_lines(platform)
+        for c in list(sc.outputs):
+            if safe and rng.random() < 0.7:
+                sc.outputs[c] = (sc.outputs[c] + "\n" if sc.outputs[c] else "") + rng.choice(safe) + "\nend of output"
     if rng.random() < 0.1:
         # the interactive session ends on an interaction_complete_pattern instead of the expected response: the remaining
         # inputs must not be sent (last operation of the scenario: the device is left at its question)
@@ -209,6 +251,8 @@ def oracle(sc, res):
                 problems.append(f"get_prompt returned {got!r}, device prompt is {dev.prompt()!r}")
         elif op[0] == "send_command":
             problems += check_single(dev, op[1], op[2], got, trailing)
+        elif op[0] == "reopen":
+            pass        # the operations after it are judged as usual: a re-opened connection is a new session
         elif op[0] == "abandon":
             if got[0] != "ABANDONED":
                 problems.append(f"send_command({op[1]!r}) returned although the device had printed only {op[2]} bytes of its response and no prompt")
@@ -426,7 +470,7 @@ def run(tier, seed):
         nontriv = any(v for v in sc.outputs.values())
         ck.case(json.dumps(sc.describe(), sort_keys=True, default=str), nontrivial=nontriv, sample=sc.describe() if len(json.dumps(sc.describe(), default=str)) < 1500 else None,
                 tags=(sc.platform, sc.stack, "cuts=" + ("whole" if not sc.cuts else "1byte" if set(sc.cuts) == {1} else "fixed" if len(set(sc.cuts)) == 1 else "random"),
-                      f"depth={sc.depth or 1000}", "nl=" + sc.nl.hex(), *(("abandoned-op",) if any(o[0] == "abandon" for o in sc.ops) else ()), "maxout=" + _bucket(max([len(v) for v in sc.outputs.values()] + [0]), sc.depth or 1000)))
+                      f"depth={sc.depth or 1000}", "nl=" + sc.nl.hex(), *(("abandoned-op",) if any(o[0] == "abandon" for o in sc.ops) else ()), *(("reopen",) if any(o[0] == "reopen" for o in sc.ops) else ()), *(("commandeer",) if sc.commandeer else ()), "maxout=" + _bucket(max([len(v) for v in sc.outputs.values()] + [0]), sc.depth or 1000)))
         probs = oracle(sc, res)
         if probs:
             ck.violation({"scenario": sc.describe(), "problems": probs[:5]}, "; ".join(probs[:2]), matcher)
